@@ -327,7 +327,8 @@ impl FarmGen {
             &sender,
             FarmAction::Expand {
                 params: FarmParams {
-                    lp_denom: farm.lp_denom.clone(),
+                    // now and then the expansion names another (valid) LP token than the farm's own
+                    lp_denom: if self.rng.gen_range(0..6) == 0 { self.lps.choose(&mut self.rng).cloned().unwrap_or_else(|| farm.lp_denom.clone()) } else { farm.lp_denom.clone() },
                     start_epoch: None,
                     preliminary_end_epoch: None,
                     curve: None,
